@@ -4,8 +4,10 @@ package vmodel
 // transport is outside every claim.
 
 import (
+	"io"
 	"net"
 	"net/http"
+	"net/url"
 
 	"github.com/buchgr/bazel-remote/v2/zzverif/vsym"
 )
@@ -60,3 +62,33 @@ func Std_Handler(handlerID string, m any, h http.Handler) http.Handler { return 
 
 // Html_EscapeString: only used for error texts; identity.
 func Html_EscapeString(s string) string { return s }
+
+// ---- the outgoing HTTP client (remote asset API): the origin server is an
+// arbitrary responder described by the harness.
+var ClientResp struct {
+	Err           error // transport error
+	StatusCode    int
+	ContentLength int64
+	Body          io.ReadCloser
+	Calls         int
+	LastURL       string
+}
+
+func Http_NewRequest(method, rawurl string, body io.Reader) (*http.Request, error) {
+	u, err := url.Parse(rawurl)
+	if err != nil {
+		return nil, err
+	}
+	return &http.Request{Method: method, URL: u, Header: http.Header{}}, nil
+}
+
+func Http_Client_Do(c *http.Client, req *http.Request) (*http.Response, error) {
+	ClientResp.Calls++
+	if req.URL != nil {
+		ClientResp.LastURL = req.URL.Host
+	}
+	if ClientResp.Err != nil {
+		return nil, ClientResp.Err
+	}
+	return &http.Response{StatusCode: ClientResp.StatusCode, Status: "status", ContentLength: ClientResp.ContentLength, Body: ClientResp.Body, Request: req}, nil
+}
